@@ -3,7 +3,7 @@
 import json, glob, os
 ann = json.load(open('/verif/seeded/ANNOTATIONS.json'))
 rows = []
-for d in sorted(x for x in glob.glob('/verif/seeded/*/') if '_benign' not in x):
+for d in sorted(x for x in glob.glob('/verif/seeded/*/') if '_benign' not in x and '_legit' not in x):
     name = os.path.basename(d.rstrip('/'))
     m = json.load(open(d + 'meta.json'))
     notes = open(d + 'notes.md').read() if os.path.exists(d + 'notes.md') else ''
